@@ -4947,8 +4947,6 @@ class PyCdlib:
 
             new_rr_name = self._check_rr_name(rr_name)
 
-            depth = len(utils.split_path(iso_path_bytes))
-
             if not self.rock_ridge and self.enhanced_vd is None:
                 _check_path_depth(iso_path_bytes)
             (name, parent) = self._iso_name_and_parent_from_path(iso_path_bytes)
@@ -4969,13 +4967,22 @@ class PyCdlib:
             fake_dir_rec = None
             orig_parent = None
             iso9660_name = name
-            if self.rock_ridge and (depth % 8) == 0 and self.enhanced_vd is None:
-                # If the depth was a multiple of 8, then we are going to have to
-                # make a relocated entry for this record.
+            # The level at which the parent really is in the ISO9660 hierarchy
+            # (a relocated directory, and all below it, is higher up than its
+            # path says); the root is at level 1 and there are eight levels.
+            parent_level = 1
+            ancestor = parent
+            while not ancestor.is_root and ancestor.parent is not None:
+                parent_level += 1
+                ancestor = ancestor.parent
+
+            if self.rock_ridge and parent_level == 8 and self.enhanced_vd is None:
+                # The new directory would be at level 9, so we are going to have
+                # to make a relocated entry for this record.
 
                 num_bytes_to_add += self._find_or_create_rr_moved()
 
-                # With a depth of 8, we have to add the directory both to the
+                # In that case, we have to add the directory both to the
                 # original parent with a CL link, and to the new parent with an
                 # RE link.  Here we make the 'fake' record, as a child of the
                 # original place; the real one will be done below.
